@@ -51,21 +51,22 @@ type c01cmd struct {
 }
 
 type c01case struct {
-	seed      uint64
-	depth     int
-	exact     bool
-	strip     bool
-	readSize  int
-	segClass  int
-	segK      int
-	wrap      int
-	nl        string
-	delayUs   int
-	pauseUs   int
-	prompt    string
-	cmds      []c01cmd
-	longest   int
-	ret       string
+	seed       uint64
+	depth      int
+	exact      bool
+	shortDepth bool // depth bound ignores the echo line (property: > prompt + longest output line)
+	strip      bool
+	readSize   int
+	segClass   int
+	segK       int
+	wrap       int
+	nl         string
+	delayUs    int
+	pauseUs    int
+	prompt     string
+	cmds       []c01cmd
+	longest    int
+	ret        string
 }
 
 var c01esc = []string{"\x1b[0m", "\x1b[1;32m", "\x1b[K", "\x1b[2J", "\x1b[?25h", "\x1b]0;title\x07", "\x1b[38;5;12m", "\x1b[1A"}
@@ -76,6 +77,7 @@ func genC01(seed uint64, thorough bool) c01case {
 	cs := c01case{seed: seed}
 	cs.prompt = r.Pick([]string{"router#", "r1>", "host-1.lab$", "sw(config)#", "a@b:/#", "router# "})
 	cs.exact = r.Chance(1, 3)
+	cs.shortDepth = r.Chance(1, 2)
 	cs.strip = r.Chance(2, 3)
 	cs.nl = r.Pick([]string{"\n", "\n", "\r\n"})
 	cs.segClass = r.Intn(5)
@@ -104,7 +106,11 @@ func genC01(seed uint64, thorough bool) c01case {
 		var c c01cmd
 		c.cmd = r.Pick([]string{"show version", "show ip interface brief", "sh run | i hostname", "ping 10.0.0.1 repeat 2", "x", "show  spaced   cmd", "dir /all", "display current-configuration interface GigabitEthernet0/0/1 | include description"})
 		if r.Chance(1, 3) {
-			c.cmd = string(r.Bytes(r.Range(1, 30), []byte("abcdefghij klmnop|/-.0123456789")))
+			ml := 30
+			if cs.shortDepth && r.Chance(1, 2) {
+				ml = 140
+			}
+			c.cmd = string(r.Bytes(r.Range(1, ml), []byte("abcdefghij klmnop|/-.0123456789")))
 			c.cmd = strings.TrimSpace(c.cmd)
 			if c.cmd == "" {
 				c.cmd = "q"
@@ -153,7 +159,10 @@ func genC01(seed uint64, thorough bool) c01case {
 				cs.longest = len(ln)
 			}
 		}
-		if e := len(cs.prompt) + len(c.cmd) + len(c.cmd)/3 + 2; e > cs.longest {
+		// the property's bound is "> prompt + longest OUTPUT line": the echo line counts only in half
+		// of the cases, so that commands longer than the search depth (where the input-length term
+		// of the echo search depth decides) are exercised too
+		if e := len(cs.prompt) + len(c.cmd) + len(c.cmd)/3 + 2; e > cs.longest && !cs.shortDepth {
 			cs.longest = e
 		}
 	}
@@ -191,11 +200,11 @@ func c01expected(cs c01case, c c01cmd) string {
 }
 
 type c01obs struct {
-	results []string
-	errs    []string
-	lines   []string // device line log
-	writes  [][]byte
-	line    string // model request
+	results  []string
+	errs     []string
+	lines    []string // device line log
+	writes   [][]byte
+	line     string // model request
 	straddle bool
 	closeErr string
 }
